@@ -55,8 +55,10 @@ class C08(Spec):
         verdicts = [v.strip() == "true" for v in m.group(1).split(";")] if m else []
         bad = [n for n, v in zip(names, verdicts) if not v]
         report.extra["lock_check_verdicts"] = dict(zip(names, verdicts))
+        report.extra["generated_theorems"] = ["ui_lock_discipline", "ui_calls_terminate", "ui_safety", "ui_progress"]
+        report.extra["generated_assumptions"] = q.stdout.count("Closed under the global context")
         discipline_broken = None
-        if q.returncode != 0 or "Closed under the global context" not in q.stdout:
+        if q.returncode != 0 or q.stdout.count("Closed under the global context") < 4 or "Axioms:" in q.stdout:
             discipline_broken = "ui_lock_discipline (lock_check ui_prog = true) no longer checks; functions violating the discipline: %s" % (", ".join(bad) or "?")
             log("C08:", discipline_broken)
         # ---- (2) observation
